@@ -10,6 +10,8 @@ use noodles_csi::binning_index::index::{
 use self::{bins::read_bins, intervals::read_intervals};
 use crate::io::reader::num::read_u32_le;
 
+const MAX_PREALLOCATED_LEN: usize = 1 << 12;
+
 pub(super) fn read_reference_sequences<R>(
     reader: &mut R,
 ) -> io::Result<Vec<ReferenceSequence<LinearIndex>>>
@@ -20,7 +22,9 @@ where
         usize::try_from(n).map_err(|e| io::Error::new(io::ErrorKind::InvalidData, e))
     })?;
 
-    let mut references = Vec::with_capacity(n_ref);
+    // The count is read from the input and is not yet validated, i.e., only a limited capacity is
+    // preallocated, and the collection grows as entries are read.
+    let mut references = Vec::with_capacity(n_ref.min(MAX_PREALLOCATED_LEN));
 
     for _ in 0..n_ref {
         let (bins, metadata) = read_bins(reader)?;
